@@ -516,7 +516,9 @@ func verifTCPFailClosed(part int) {
 		if len(s.RequestPrincipals)+len(s.NotRequestPrincipals) > 0 {
 			httpOnly = true
 		}
-		erased.From = append(erased.From, &authzpb.Rule_From{Source: &authzpb.Source{Principals: s.Principals, NotPrincipals: s.NotPrincipals, Namespaces: s.Namespaces, NotNamespaces: s.NotNamespaces}})
+		erased.From = append(erased.From, &authzpb.Rule_From{Source: &authzpb.Source{Principals: s.Principals, NotPrincipals: s.NotPrincipals, Namespaces: s.Namespaces, NotNamespaces: s.NotNamespaces,
+			ServiceAccounts: s.ServiceAccounts, NotServiceAccounts: s.NotServiceAccounts, IpBlocks: s.IpBlocks, NotIpBlocks: s.NotIpBlocks,
+			RemoteIpBlocks: s.RemoteIpBlocks, NotRemoteIpBlocks: s.NotRemoteIpBlocks}})
 	}
 	if action == rbacpb.RBAC_ALLOW {
 		if httpOnly {
